@@ -10,6 +10,8 @@
 (*           every id of other blocks (foreign) and by the extra ids         *)
 (*   delete  ids[i] removed          dup     ids[i] repeated                 *)
 (*   swap    ids[i], ids[i+1] exchanged (adjacent transposition)             *)
+(*   index   a DUPk / SWAPk id replaced by the neighbouring depth k+1 / k-1  *)
+(*           (the sequence keeps its stack shape, another value is used)     *)
 (*   insert  any pool id inserted before position i (i = Len+1: appended)    *)
 (* and per entry: dropentry (the entry disappears: the sub-block is reported *)
 (* as not optimized), empty (empty id list), moveto (the id list is filed    *)
@@ -33,9 +35,14 @@ Pool(l, e)      == SameBlock(l, e) \cup Foreign(l, e) \cup Rng(In.extra)
 Without(s, i)     == SubSeq(s, 1, i - 1) \o SubSeq(s, i + 1, Len(s))
 InsertAt(s, i, x) == SubSeq(s, 1, i - 1) \o <<x>> \o SubSeq(s, i, Len(s))
 
+\* DUPk / SWAPk with the neighbouring depths
+Neighbours(id) ==
+  UNION {{pre \o ToString(j) : j \in {k - 1, k + 1} \cap (1..16)} : <<pre, k>> \in {pk \in {"DUP", "SWAP"} \X (1..16) : id = pk[1] \o ToString(pk[2])}}
+
 Mutants(l, e) ==
   LET ids == Ent(l)[e].ids  L == Len(ids) IN
        {[l |-> l, e |-> e, kind |-> "subst", i |-> i, id |-> x, e2 |-> 0, ids |-> [ids EXCEPT ![i] = x]] : i \in 1..L, x \in Pool(l, e)}
+  \cup {[l |-> l, e |-> e, kind |-> "index", i |-> i, id |-> x, e2 |-> 0, ids |-> [ids EXCEPT ![i] = x]] : <<i, x>> \in UNION {{<<j, y>> : y \in Neighbours(ids[j])} : j \in 1..L}}
   \cup {[l |-> l, e |-> e, kind |-> "delete", i |-> i, id |-> "", e2 |-> 0, ids |-> Without(ids, i)] : i \in 1..L}
   \cup {[l |-> l, e |-> e, kind |-> "dup", i |-> i, id |-> "", e2 |-> 0, ids |-> InsertAt(ids, i, ids[i])] : i \in 1..L}
   \cup {[l |-> l, e |-> e, kind |-> "swap", i |-> i, id |-> "", e2 |-> 0, ids |-> [ids EXCEPT ![i] = ids[i + 1], ![i + 1] = ids[i]]] : i \in 1..(L - 1)}
